@@ -189,7 +189,7 @@ func (t *tracer) TransitionEnd(tx *am.Transition) {
 		if listed && cfg.CalledExclude {
 			match = false
 			break
-		} else if !listed && !cfg.CalledExclude {
+		} else if listed && !cfg.CalledExclude {
 			match = true
 			break
 		}
@@ -201,7 +201,7 @@ func (t *tracer) TransitionEnd(tx *am.Transition) {
 		if listed && cfg.ChangedExclude {
 			match = false
 			break
-		} else if !listed && !cfg.ChangedExclude {
+		} else if listed && !cfg.ChangedExclude {
 			match = true
 			break
 		}
